@@ -353,4 +353,12 @@ def run (o : Opts) (key : Option Bytes) (kvs : List (Bytes × Bytes)) (files : L
         let last := (o.start + d.blocks.length) - 1
         let (fs, out) := callbackOut o coin.version last d.blocks
         ⟨0, none, "", heights, hashes, fs, out, d.events⟩
+
+/-- the blocks handed to the callback (what `run` folds the callback over); used by the driver to print the write program -/
+def deliveredBlocks (o : Opts) (key : Option Bytes) (kvs : List (Bytes × Bytes)) (files : List BlkFile) : List CB.EBlock :=
+  match coinOf o.coin, loadIndex o kvs with
+  | some coin, .ok ld =>
+    let fmap := files.filterMap fun f => (parseBlkIndex f.name).map fun n => (n, f)
+    (driveLoop coin o key fmap ld.full ld.trimmed o.start (ld.maxH + 1 - o.start) [] [] []).blocks
+  | _, _ => []
 end Run
